@@ -1,7 +1,7 @@
 PROP = dict(
     properties="Properties/C01.v",
     harness_mods=["Harness/C01.v"],
-    runs=[dict(cmd="c01", quick=6, thorough=120, timeout=3000)],
+    runs=[dict(cmd="c01", quick=6, thorough=50, timeout=3000)],
     trusted_base=[
         "hand-written Gallina models coq/Node/Layers.v (store layers, flush, prune, restart; the interpreter is a parameter), coq/Node/FlushFail.v (one cache map, batch of a flush in progress, success / failure of the write) and "
         "coq/Tokens/Model.v + coq/Node/Gov.v (NEO/Policy/Designate/Management caches as derived state, reinit = InitializeCache), tied by differential comparison only",
